@@ -174,12 +174,19 @@ def _slice_rv(b, rv):
 
 
 def r4(ctx, facts):
-    r = ctx.rule("R4", "every selection predicate honours the host filter / liveness", floor=17)
+    r = ctx.rule("R4", "every selection predicate honours the host filter / liveness", floor=24)
     cg = CallGraph(facts)
     OKS = ("Node::is_enabled", "DefaultPolicy::is_alive", "Node::is_connected")
     n = 0
-    for meth in ("pick", "fallback"):
-        b = method_bodies(facts, meth)[0]
+    # pick / fallback themselves, then every DefaultPolicy helper they reach (pick_first_replica, maybe_shuffled_replicas, ...)
+    roots = [method_bodies(facts, m)[0] for m in ("pick", "fallback")]
+    helpers = []
+    for q in sorted(cg.reachable([x.path for x in roots]).keys()):
+        if q.startswith("scylla::policies::load_balancing::default::") and "{closure" not in q and q not in [x.path for x in roots]:
+            hb = facts.body(q)
+            if hb is not None and "DefaultPolicy" in q:
+                helpers.append(hb)
+    for meth, b in [("pick", roots[0]), ("fallback", roots[1])] + [("helper:" + fn_short(h.path), h) for h in helpers]:
         for bb in sorted(b.live_blocks):
             for s in b.stmts(bb):
                 if not (s[0] == "A" and s[2][0] == "agg" and s[2][1][0] == "closure"):
@@ -191,18 +198,22 @@ def r4(ctx, facts):
                 n += 1
                 reach = set(cg.reachable([cp]).keys()) | {cp}
                 names = set()
+                delegates = False
                 for p in reach:
                     pb = facts.body(p)
                     for bb2, c in pb.calls():
                         if bb2 in pb.live_blocks:
                             names.add(c.name or c.decl or "")
+                            if (c.decl or "").startswith("core::ops::function::Fn") and "res" not in c.callee:
+                                delegates = True   # calls a predicate it was given (generic parameter / captured Fn)
                     # invoking the pick_predicate field: an indirect call through a Box<dyn Fn>
                     for bb2 in pb.live_blocks:
                         t = pb.term(bb2)
                         if t[0] == "call" and ("pick_predicate" in str(t[2]) or (t[1].get("def", "").endswith("Fn::call") and "pick_predicate" in str(pb.stmts(bb2)))):
                             names.add("pick_predicate")
-                ok = any(any(nm.endswith(o) for o in OKS) for nm in names) or "pick_predicate" in names
-                r.instance("%s:predicate#%d" % (meth, n), ok, "a selection predicate does not consult is_enabled / is_alive / pick_predicate (a filtered-out or dead host could be named); it calls %s" % sorted(x.split("::")[-1] for x in names)[:6], b.stmt_span(s))
+                ok = any(any(nm.endswith(o) for o in OKS) for nm in names) or "pick_predicate" in names or (meth.startswith("helper:") and delegates)
+                r.instance("%s:predicate#%d" % (meth, n), ok, "a selection predicate does not consult is_enabled / is_alive / pick_predicate%s (a filtered-out or dead host could be named); it calls %s"
+                           % (" nor the predicate it was handed" if meth.startswith("helper:") else "", sorted(x.split("::")[-1] for x in names)[:6]), b.stmt_span(s))
     if n == 0:
         raise AnchorLost("no predicate closures found in pick/fallback")
     w = field_writers(facts, DP, ["pick_predicate"])
